@@ -177,7 +177,13 @@ impl<'a> Gen<'a> {
 
     /// `inner` (an assignment) placed at some evaluated position of a larger expression.
     fn in_position(&mut self, inner: E) -> E {
-        match self.rng.below(20) {
+        match self.rng.below(24) {
+            // positions that are NOT evaluated: the branch of a conditional that is not taken
+            // (at top level, inside a do-block, inside a call)
+            20 => cond(E::Bool(false), inner, num(0)),
+            21 => cond(E::Bool(true), num(0), inner),
+            22 => doblk(vec![assign("t", cond(E::Bool(true), num(0), inner))], id("t")),
+            23 => call(lam(&["v"], cond(bin(".<", num(1), num(2)), id("v"), inner)), vec![num(3)]),
             0 => E::List(vec![inner, self.small_num()]),
             1 => E::Rec(vec![RK::Static("k".into(), inner)]),
             2 => bin("+", inner, num(1)),
@@ -1014,6 +1020,11 @@ const SCOPE_SENTINELS: &[(&str, Option<&str>)] = &[
     ("[((zt) => 1)(1), zt]", None),
     ("do { zt = 1; return 1 } + zt", None),
     ("[((zo?) => 1)(4), zo]", None),
+    // the branch of a conditional that is not taken has no effect on any scope
+    ("do { zt = 5; return do { zq = if true then 0 else (zt = 1); return zt } }", Some("5")),
+    ("((zt) => do { zq = if false then (zt = 1) else 0; return zt })(5)", Some("5")),
+    ("[if true then 0 else (zt = 1), zt]", None),
+    ("[if false then (zt = 1) else 0, zt]", None),
 ];
 
 /// Ways of reading the bound name `n` that must all give its value.
